@@ -7,6 +7,7 @@ from pyvc import source
 from pyvc.interp import Interp, explore, Outside, PyExc
 from pyvc.world import World
 from pyvc.smt import Obligation, Result
+from pyvc.par import pmap
 from contracts.truth import TFModel, MvalSym, ValuesModel, spec_term, num
 from spec import semantics as S
 
@@ -351,6 +352,14 @@ def run(ctx):
                 for op in ops:
                     same = real_table(logic, op.name) == real_table(bl, op.name)
                     ctx.add(Obligation(f'C07.{L}.same-as-base.{op.name}', same, kind='enum', meta=dict(logic=L, base=base, cex=dict(base=base))))
+    # the value a MODEL assigns to op(s1..sn) is the table applied to the values of the parts: BaseModel.value_of_operated (and its
+    # overrides) interpreted from source on every value tuple of every operator -- C08's clause, re-stated under C07 names
+    from checks import c08 as _c08
+    for res, funcs in pmap(_c08.work_operated, [RS_reg_name for RS_reg_name in reg]):
+        for r in res:
+            r.name = r.name.replace('C08.', 'C07.model.', 1); ctx.add_result(r)
+        ctx.functions.update(funcs)
+    ctx.replayers['C07.model.'] = replay_model_value
     ctx.replayers['C07.'] = lambda r: replay(dict(obligation=r.name, counterexample=r.cex, meta=r.meta))
 
 def _base_name(L):
@@ -358,6 +367,20 @@ def _base_name(L):
     for pre in ('S4', 'S5', 'K', 'T'):
         if L.startswith(pre) and len(L) > len(pre): return L[len(pre):]
     return None
+
+def replay_model_value(r):
+    "a real model with atoms set to the counterexample tuple: value_of(op(atoms)) against the real truth function"
+    cex = r.cex or (r.meta or {}).get('cex') or {}
+    L = (r.meta or {}).get('logic'); op = cex.get('operator'); args = cex.get('args')
+    if not (L and op and args): return dict(reproduced=None, detail='see counterexample / meta')
+    from pytableaux.lang import Atomic, Operator
+    logic = _registry()(L)
+    m = logic.Model(); atoms = [Atomic(i, 0) for i in range(len(args))]
+    for a, v in zip(atoms, args): m.set_atomic_value(a, v)
+    m.finish()
+    s = Operator[op](*atoms)
+    got = m.value_of(s).name; want = getattr(logic.Model.truth_function, op)(*[logic.Model.values[v] for v in args]).name
+    return dict(reproduced=got != want, detail=f'{L}: model with {dict(zip(map(str, atoms), args))}: value_of({s}) = {got}, truth function gives {want}')
 
 def replay(payload):
     """re-evaluate the real truth function on the counterexample tuple"""
